@@ -7,7 +7,7 @@ CLAIMED = {
     # id: (level, design_ref, technique, level text, level note)
     "C20": ("exploration", "DESIGN.md §4 C20",
             "bounded-exhaustive enumeration of conversion inputs against an independent calendar / big-integer model",
-            "Every Date and every Date32 day of the documented range in 29 fixed zones at 4 times of day, DateTime seconds (all 2^32 in the thorough tier), a DateTime64 lattice at every precision, wide-integer, IP and interval helpers are each evaluated on the real functions and compared with an independent model; the finite spaces named in the evidence are enumerated completely, nothing is sampled.",
+            "Every Date and every Date32 day of the documented range in 29 fixed zones at 4 times of day, DateTime seconds (all 2^32 in the thorough tier), a DateTime64 lattice at every precision, wide-integer, IP and interval helpers are each evaluated on the real functions and compared with an independent model, and every one of those instants also enters the matching column through each of its ingestion paths (Append, AppendArr, Array, Nullable) with the scalar conversion as oracle; the finite spaces named in the evidence are enumerated completely, nothing is sampled.",
             "Trusted: Go runtime, math/big; the civil-calendar model (cross-checked against package time for every day enumerated)."),
     "C04": ("model_checking", "DESIGN.md §4 C04, §2 E1/E2",
             "stateless model checking of the real client: preemption-bounded DFS over all schedules of the sender / receiver / cancel-watch / peer goroutines and clock steps, crossed with an exhaustive fault enumeration",
@@ -43,19 +43,19 @@ CLAIMED = {
             "Trusted: refwire hello model (fields gated on min of both revisions, as real servers do)."),
     "C01": ("exploration", "DESIGN.md §4 C01, §2 E3/E4/E5",
             "bounded-exhaustive enumeration of (column composition, value sequence, revision, buffer state) with three independent decoders (typed, inferred, reference model) as oracle, executed in the default and the purego build with transcript comparison",
-            "Every composition of the generated registry (45 base columns under Array / Nullable / LowCardinality / Map / Tuple to depth 2: ~1000 typed constructors) x all value sequences of length <= 2 (thorough 3) over per-type boundary alphabets x 3 revisions x 3 buffer states, plus dictionary sizes around 255 / 65535 and strings around the varint boundaries. Each case must decode to the appended values through a fresh typed column, through Results.Auto where the type is inferable and through the reference codec (exact consumption), must not depend on the buffer's prior contents, must re-encode identically and must equal the WriteBlock path; both builds must agree.",
+            "Every composition of the generated registry (45 base columns under Array / Nullable / LowCardinality / Map / Tuple to depth 2: ~1000 typed constructors) x all value sequences of length <= 2 (thorough 3) over per-type boundary alphabets x 3 revisions x 3 buffer states, plus dictionary sizes around 255 / 65535, strings around the varint boundaries and around the 1 MiB allocation step (four carriers, fresh and reused targets), the same contents as a reference server writes them (wider LowCardinality keys) and under the server's spellings of the type (Decimal(P, S), explicit time zones). Each case must decode to the appended values through a fresh typed column, through Results.Auto where the type is inferable and through the reference codec (exact consumption), must not depend on the buffer's prior contents, must re-encode identically and must equal the WriteBlock path; both builds must agree.",
             "Trusted: refcol (reference codec written from the format description) and the reflection glue mapping Go values to canonical wire values (its date arithmetic is independent of the library's). LowCardinality(Nullable(T)) is compared only against the library's own decoders (its library representation is not the server's). Depth-3 compositions are not generated."),
     "C05": ("fault_enumeration", "DESIGN.md §4 C05",
             "exhaustive enumeration of payload lengths x kinds x methods, frame sequences x read sizes, every single-byte alteration of representative frames, out-of-range size fields, and an explicit-state search over append-frame / corrupt-frame / read histories on one reader",
             "Round trip of every payload length 0..512 (thorough 4096) in 4 content kinds with None, LZ4, ZSTD and LZ4HC at every level, cross-read by an independent frame parser in both directions; all frame sequences of length <= 3 x 67 read sizes; every byte of 16 frames altered 10 ways (thorough 255) must give an error (CorruptedDataErr with both hashes when the length fields are intact) and the following reads must only return bytes of verified frames; size fields beyond the limit rejected with < 1 MiB allocated; all histories of <= 4 (5) steps.",
             "Trusted: go-faster/city, pierrec/lz4, klauspost/zstd (shared by library and reference frame codec)."),
     "C06": ("fault_enumeration", "DESIGN.md §4 C06",
-            "exhaustive single-point mutation of valid encodings (every byte x 10 values, every offset x 15 boundary / huge values as 8-byte field and as varint, every splice offset) decoded in memory-limited subprocesses with crash attribution and a non-termination watchdog",
-            "Corpus: one block per registry composition and the protocol messages. Each mutant is decoded through the typed target and through Auto; the worker runs with a 3 GiB address-space limit and the block row cap lowered to 65536 by an overlay (so that by-design allocations stay small and only length-field-driven ones can exhaust memory). Oracle: returns within 30 s, no panic, process alive, and on success Rows() equals the block's row count and Row(i) works for every i. A dying worker is attributed to the input it was decoding and restarted after it.",
+            "exhaustive single-point mutation of valid encodings (every byte x 10 values, every offset x 25 boundary / huge values incl. the neighbourhoods of the signed limits, as 8-byte field and as varint, every splice offset) decoded in memory-limited subprocesses with crash attribution and a non-termination watchdog",
+            "Corpus: one block per registry composition (LowCardinality compositions also as a server may write them, with 16- and 64-bit keys) and the protocol messages. Each mutant is decoded through the typed target and through Auto; the worker runs with a 3 GiB address-space limit and the block row cap lowered to 65536 by an overlay (so that by-design allocations stay small and only length-field-driven ones can exhaust memory). Oracle: returns within 30 s, no panic, process alive, and on success Rows() equals the block's row count and Row(i) works for every i. A dying worker is attributed to the input it was decoding, provided a fresh process given that input alone dies as well, and restarted after it.",
             "Trusted: the overlay that rewrites only the constant maxRowsInBLock. Quick covers every composition of depth <= 1 and every 7th of depth 2; thorough all."),
     "C07": ("fault_enumeration", "DESIGN.md §4 C07",
             "exhaustive enumeration of every proper prefix of every corpus encoding (plain, and inside None / LZ4 / ZSTD frames as one and two frames), decoded through typed and inferred targets",
-            "Corpus = C01 blocks (all compositions) and C17 messages at three revisions; ~2.2 million (encoding, cut, decoder) cases in the quick tier; a prefix the reference model parses as a complete message is excluded by construction. Oracle: an error, never nil.",
+            "Corpus = C01 blocks (all compositions) and C17 messages at three revisions; ~2.2 million (encoding, cut, decoder) cases in the quick tier; a prefix the reference model parses as a complete message is excluded by construction. Values longer than the 1 MiB allocation step (seven block positions, three messages) are cut at a stated subset of positions (both ends, around every 64 KiB step, a 4099-byte stride). Oracle: an error, never nil.",
             "Trusted: refcol / refwire for the exclusion of prefixes that are complete messages."),
     "C11": ("model_checking", "DESIGN.md §4 C11, §2 E1",
             "stateless model checking of the real chpool + puddle + ch.Dial under the controlled scheduler: preemption-bounded DFS over all interleavings of the pool-level steps of 2-3 holder threads, an optional closer thread and the health-check goroutine driven by the fake clock",
@@ -75,14 +75,14 @@ CLAIMED = {
             "Trusted: refcol; the successor of a state is built by replaying its path on a fresh object."),
     "C17": ("exploration", "DESIGN.md §4 C17",
             "bounded-exhaustive enumeration of message field vectors x revisions, byte-for-byte comparison with the independent reference encoder and decode-back comparison",
-            "9 message kinds with <= 2 deviating fields over per-field alphabets x the threshold-neighbour revision set (thorough: every revision 50000..54500): library bytes = reference bytes, decode gives the message as far as the revision carries it, no unread bytes.",
+            "9 message kinds with <= 2 deviating fields over per-field alphabets (the one-byte trace flags over all 256 values) x the threshold-neighbour revision set (thorough: every revision 50000..54500): library bytes = reference bytes, decode gives the message as far as the revision carries it, no unread bytes.",
             "Trusted: refwire (thresholds from ProtocolDefines.h)."),
     "C18": ("exploration", "DESIGN.md §4 C18",
             "bounded-exhaustive enumeration of (block schema, target list, row count) and of block pairs, with a reference compatibility predicate as oracle",
-            "Schemas of 0..2 (3) columns over 18 kinds x 2 row counts x ~60 target variants (permutations, renames, blank names, missing / extra, every kind swap, Auto, none) and block pairs against the same targets: accept / reject must match the predicate, accepted targets hold exactly their column, rejected decodes leave no foreign data.",
+            "Schemas of 0..2 (3) columns over 20 kinds x 2 row counts x ~60 target variants (permutations, renames, blank names, missing / extra, every kind swap, Auto, none) and block pairs against the same targets: accept / reject must match the predicate, accepted targets — read back as values of the block's type — hold exactly their column and report the block's precision / enum definition as adopted, rejected decodes leave no foreign data.",
             "Trusted: the predicate (same base; enum <-> integer; enums and timestamps adopt the server's parameters; FixedString width must match; wrappers element-wise; a name-based enum target needs an enum block; Auto applies where ColAuto.Infer accepts)."),
     "C19": ("exploration", "DESIGN.md §4 C19",
-            "bounded-exhaustive enumeration of type strings (well-formed grammar to depth 2/3 with legal and illegal parameters; all token strings up to length 5/6 over a 25-token alphabet; depth-10000 nesting) and of all ordered pairs for the compatibility relation",
+            "bounded-exhaustive enumeration of type strings (well-formed grammar to depth 2/3 with legal and illegal parameters; all token strings up to length 5/6 over a 25-token alphabet; every single edit of the well-formed types; all character strings up to length 5/6 over a 9-character alphabet as parameter lists of every parameterised family; depth-10000 nesting) and of all ordered pairs for the compatibility relation",
             "Infer must not panic; when it accepts, the inferred type must not conflict with the request and a block written by the reference codec must decode to the written values; Conflicts must be reflexive and symmetric on all ~10^7 ordered pairs and agree with the documented equivalences.",
             "Trusted: refcol for the soundness decode (types it does not know are checked for totality only)."),
 }
